@@ -95,3 +95,23 @@ def clock_anchored(ts, h, mi):
     if c <= ref_min:
         c += timedelta(days=1)
     return T(c.year, c.month, c.day, c.hour, c.minute)
+
+
+# ---- latent-time anchoring of a resolution (reference for ctparse's post-processing) ------
+def _is_tod(v):
+    return (v is not None and v[0] == "T" and v[4] is not None
+            and all(v[i] is None for i in (1, 2, 3, 6, 7)))
+
+
+def latent(v, ts):
+    """What latent_time=True turns a resolution into: a bare clock time becomes the first
+    such time strictly after the reference minute; a range of two bare clock times is
+    anchored on the day of its (anchored) start; everything else is unchanged."""
+    if v is None:
+        return v
+    if v[0] == "T" and _is_tod(v):
+        return clock_anchored(ts, v[4], v[5] or 0)
+    if v[0] == "I" and _is_tod(v[1]) and _is_tod(v[2]):
+        a = clock_anchored(ts, v[1][4], v[1][5] or 0)
+        return ["I", a, T(a[1], a[2], a[3], v[2][4], v[2][5] or 0)]
+    return v
